@@ -18,8 +18,6 @@ structure OpsSpec {σ : Type} (ops : Go.VOps σ) (abs : σ → V) (F : Facts) : 
   tcGet_bl : ∀ w now k, (abs (ops.tokenCacheGet w now k).2).bl = (abs w).bl
   tcGet_lim : ∀ w now k, (abs (ops.tokenCacheGet w now k).2).lim = (abs w).lim
   tcGet_hit : ∀ w now k, (ops.tokenCacheGet w now k).1.2 = (Cache.get F.se (abs w).tc now (String.ofList k)).2.isSome
-  /-- what the token cache hands back on a hit is a non-empty claims map (only claims of verified tokens are ever stored) -/
-  tcGet_nonempty : ∀ w now k, (ops.tokenCacheGet w now k).1.2 = true → (ops.tokenCacheGet w now k).1.1 ≠ []
   tcSet_tc : ∀ w now k c d, (abs (ops.tokenCacheSet w now k c d)).tc = Cache.set F.se (abs w).tc now (String.ofList k) 1 d
   tcSet_bl : ∀ w now k c d, (abs (ops.tokenCacheSet w now k c d)).bl = (abs w).bl
   tcSet_lim : ∀ w now k c d, (abs (ops.tokenCacheSet w now k c d)).lim = (abs w).lim
@@ -170,7 +168,8 @@ theorem default_is_24h : Code.defaultBlacklistDuration = 24 * Go.Hour := by deci
 theorem VerifyToken_refines {σ : Type} (ops : Go.VOps σ) (abs : σ → V) (F : Facts) (S : OpsSpec ops abs F)
     (now : Int) (t : Go.Inst) (tok : Go.Str) (w : σ)
     (hF : F.blTTL = Code.defaultBlacklistDuration)
-    (hAgree : (t.parseJWT tok).2 = none → t.extractClaims tok = ((t.parseJWT tok).1.Claims, none)) :
+    (hAgree : (t.parseJWT tok).2 = none → t.extractClaims tok = ((t.parseJWT tok).1.Claims, none))
+    (hne : (ops.tokenCacheGet w now tok).1.2 = true → (ops.tokenCacheGet w now tok).1.1 ≠ []) :
     let r := Code.TraefikOidc_VerifyToken ops now t tok w
     let m := verify F (codeTok t) (abs w) now (String.ofList tok)
     abs r.2 = m.1 ∧ r.1.isNone = m.2 := by
@@ -194,7 +193,6 @@ theorem VerifyToken_refines {σ : Type} (ops : Go.VOps σ) (abs : σ → V) (F :
   have c1 := fun w k => S.tcGet_tc w now k
   have c2 := fun w k => S.tcGet_bl w now k
   have c3 := fun w k => S.tcGet_lim w now k
-  have c4 := fun w k => S.tcGet_nonempty w now k
   have s1 := fun w k c d => S.tcSet_tc w now k c d
   have s2 := fun w k c d => S.tcSet_bl w now k c d
   have s3 := fun w k c d => S.tcSet_lim w now k c d
@@ -207,13 +205,13 @@ theorem VerifyToken_refines {σ : Type} (ops : Go.VOps σ) (abs : σ → V) (F :
   clear hPre hVer hCv S
   obtain ⟨tcg, tcs, tcd, blg, bls, la⟩ := ops
   obtain ⟨ex, ad, ar, gp, ecf, ecl, pj, iu, ci, gj, tp, vs⟩ := t
-  simp only at hr c0 c1 c2 c3 c4 s1 s2 s3 b1' b2' b3' hcv hscr hjti hexp hAgree
+  simp only at hr c0 c1 c2 c3 s1 s2 s3 b1' b2' b3' hcv hscr hjti hexp hAgree hne
   -- token cache lookup
   have d0 := c0 w tok
   have d1 := c1 w tok
   have d2 := c2 w tok
   have d3 := c3 w tok
-  have d4 := c4 w tok
+  have d4 := hne
   rcases hg : tcg w now tok with ⟨⟨claims, found⟩, w1⟩
   rw [hg] at hr d0 d1 d2 d3 d4
   simp only at hr d0 d1 d2 d3 d4
@@ -369,5 +367,64 @@ theorem RevokeToken_refines {σ : Type} (ops : Go.VOps σ) (abs : σ → V) (F :
       show ((now + 24 * Go.Hour) - now : Int) = _
       omega
     · simp only []; rw [b3]; exact d3
+
+/-! ## a property of the state that every operation preserves is preserved by `VerifyToken` and `RevokeToken`
+
+(`tokenCacheSet` needs to preserve it only for the claims `VerifyToken` actually stores: those of a token that parsed and passed
+`VerifyJWTSignatureAndClaims`.) -/
+theorem VerifyToken_preserves {σ : Type} (ops : Go.VOps σ) (P : σ → Prop) (now : Int) (t : Go.Inst) (tok : Go.Str)
+    (hG : ∀ w k, P w → P (ops.tokenCacheGet w now k).2)
+    (hS : ∀ w d, P w → (t.parseJWT tok).2 = none →
+      Code.TraefikOidc_VerifyJWTSignatureAndClaims now t (t.parseJWT tok).1 tok = none → P (ops.tokenCacheSet w now tok (t.parseJWT tok).1.Claims d))
+    (hBG : ∀ w k, P w → P (ops.blacklistGet w now k).2)
+    (hBS : ∀ w k v d, P w → P (ops.blacklistSet w now k v d))
+    (hL : ∀ w, P w → P (ops.limiterAllow w now).2)
+    (w : σ) (hw : P w) : P (Code.TraefikOidc_VerifyToken ops now t tok w).2 := by
+  have hpre : ∀ w1, P w1 → P (Code.TraefikOidc_performPreVerificationChecks ops now t tok w1).2 := by
+    intro w1 h1
+    unfold Code.TraefikOidc_performPreVerificationChecks
+    dsimp only
+    split
+    · exact hL w1 h1
+    · split
+      · exact hBG _ _ (hL w1 h1)
+      · split
+        · split
+          · split
+            · exact hBG _ _ (hBG _ _ (hL w1 h1))
+            · exact hBG _ _ (hBG _ _ (hL w1 h1))
+          · exact hBG _ _ (hL w1 h1)
+        · exact hBG _ _ (hL w1 h1)
+  unfold Code.TraefikOidc_VerifyToken
+  dsimp only
+  split
+  · exact hG w tok hw
+  · have h2 := hpre _ (hG w tok hw)
+    generalize Code.TraefikOidc_performPreVerificationChecks ops now t tok (ops.tokenCacheGet w now tok).2 = pr at h2
+    split
+    · exact h2
+    · split
+      · exact h2
+      · rename_i hparse
+        split
+        · exact h2
+        · rename_i hver
+          have hp' : (t.parseJWT tok).2 = none := by
+            cases h : (t.parseJWT tok).2 <;> simp [h] at hparse ⊢
+          have hv' : Code.TraefikOidc_VerifyJWTSignatureAndClaims now t (t.parseJWT tok).1 tok = none := by
+            cases h : Code.TraefikOidc_VerifyJWTSignatureAndClaims now t (t.parseJWT tok).1 tok <;> simp [h] at hver ⊢
+          have h3 : P (Code.TraefikOidc_cacheVerifiedToken ops now t tok (t.parseJWT tok).1.Claims pr.2) :=
+            hS _ _ h2 hp' hv'
+          repeat' split
+          all_goals first | exact h3 | exact hBS _ _ _ _ h3
+
+theorem RevokeToken_preserves {σ : Type} (ops : Go.VOps σ) (P : σ → Prop) (now : Int) (t : Go.Inst) (tok : Go.Str)
+    (hD : ∀ w k, P w → P (ops.tokenCacheDelete w k))
+    (hBS : ∀ w k v d, P w → P (ops.blacklistSet w now k v d))
+    (w : σ) (hw : P w) : P (Code.TraefikOidc_RevokeToken ops now t tok w) := by
+  unfold Code.TraefikOidc_RevokeToken
+  dsimp only
+  repeat' split
+  all_goals exact hBS _ _ _ _ (hD _ _ hw)
 
 end Oidc.CodeRefine
